@@ -22,6 +22,7 @@ import (
 
 	"github.com/mattn/anko/ast"
 	"github.com/mattn/anko/parser"
+	"github.com/mattn/anko/vm"
 	"verifharness/internal/astjson"
 	"verifharness/internal/vmrun"
 )
@@ -106,6 +107,13 @@ func main() {
 	if len(os.Args) < 4 || os.Args[1] != "run" {
 		fmt.Fprintln(os.Stderr, "usage: vmharness run <cases.ndjson> <result.json> [nconc]")
 		os.Exit(2)
+	}
+	if tp := os.Getenv("VERIF_TRACE"); tp != "" {
+		if err := vm.VerifTraceTo(tp); err != nil {
+			fmt.Fprintln(os.Stderr, err)
+			os.Exit(2)
+		}
+		defer vm.VerifTraceTo("")
 	}
 	nconc := 3
 	if len(os.Args) > 4 {
@@ -232,6 +240,7 @@ func main() {
 	if pk1 := vmrun.PackagesDigest(); pk1 != pk0 {
 		add(Mismatch{ID: "(all)", Kind: "isolation", What: "the process-wide package tables (env.Packages / env.PackageTypes) changed during the runs"})
 	}
+	vm.VerifTraceFlush()
 	b, _ := json.Marshal(sum)
 	if err := os.WriteFile(os.Args[3], b, 0o644); err != nil {
 		fmt.Fprintln(os.Stderr, err)
